@@ -13,3 +13,11 @@ mod stdio_server;
 mod vhdl_server;
 pub use crate::stdio_server::start;
 pub use crate::vhdl_server::VHDLServerSettings;
+
+/// Entry points for external verification harnesses (only with `--cfg vhdl_ls_rust_hdl_verif`).
+#[cfg(vhdl_ls_rust_hdl_verif)]
+pub mod verif_hooks {
+    pub use crate::rpc_channel::{RpcChannel, SharedRpcChannel};
+    pub use crate::vhdl_server::semantic_tokens::verif_hooks::encode as encode_semantic_tokens;
+    pub use crate::vhdl_server::VHDLServer;
+}
